@@ -85,6 +85,10 @@ type TreeNode struct {
 	Attr map[string]*TreeNode
 }
 type OneField struct{ P *int }
+
+// OneMap: like OneField a struct whose only field is pointer-shaped, so that the struct itself is stored
+// directly in an interface word
+type OneMap struct{ M map[string]int }
 type Empty struct{}
 type Wide struct {
 	I8  int8
@@ -223,6 +227,11 @@ func ifaceVals() []reflect.Value {
 		bigI("18446744073709551616"), Inner{1, "x"}, &Inner{2, "y"}, &i1, struct{ A int }{7}, complex(1, 2),
 		[]interface{}{[]interface{}{1}, map[string]interface{}{"a": []interface{}{"ab"}}},
 		[]*Inner{{1, "a"}, nil}, MyInt(5), [2]int{1, 2}, mkList(1),
+		// lists of structs of one registered type (ListTypeSlice turns them into a typed slice), among them the
+		// pointer-shaped one-field structs
+		[]interface{}{Inner{1, "x"}, Inner{2, "y"}}, []interface{}{OneField{&i1}}, []interface{}{OneField{&i1}, OneField{&i2}},
+		[]interface{}{OneMap{map[string]int{"k": 1}}}, OneField{&i2}, OneMap{map[string]int{"k": 2}}, []interface{}{&OneField{&i1}},
+		[]OneField{{&i1}}, map[string]interface{}{"o": OneField{&i1}},
 	}
 	out := make([]reflect.Value, len(xs))
 	it := reflect.TypeOf((*interface{})(nil)).Elem()
@@ -456,7 +465,7 @@ func Ctors(t reflect.Type) []reflect.Type {
 func NamedStructs() []reflect.Type {
 	return []reflect.Type{
 		reflect.TypeOf(Inner{}), reflect.TypeOf(Tagged{}), reflect.TypeOf(Embedded{}), reflect.TypeOf(Rec{}),
-		reflect.TypeOf(TreeNode{}), reflect.TypeOf(OneField{}), reflect.TypeOf(Empty{}), reflect.TypeOf(Wide{}),
+		reflect.TypeOf(TreeNode{}), reflect.TypeOf(OneField{}), reflect.TypeOf(OneMap{}), reflect.TypeOf(Empty{}), reflect.TypeOf(Wide{}),
 		reflect.TypeOf(MyIntSlice{}), reflect.TypeOf(MyMap{}),
 		reflect.TypeOf(EmbLate{}), reflect.TypeOf(EmbUnexported{}), reflect.TypeOf(EmbDeep{}),
 	}
